@@ -181,14 +181,20 @@ def _u10_from_bulk_rate_point(
         )
 
         try:
+            # Note: all arguments are passed positionally (in declaration order).
+            # Numba binds keyword arguments by position for calls inside a try
+            # block, which silently sent atol/rtol/stepsize to the wrong
+            # parameters (max_iterations=0.01 -> no iteration -> NaN).
             u10 = numba_newton_raphson(
                 _u10_iteration_function,
                 u10,
                 args,
                 (0, np.inf),
-                atol=atol,
-                rtol=rtol,
-                numerical_stepsize=numerical_stepsize,
+                100,
+                True,
+                atol,
+                rtol,
+                numerical_stepsize,
             )
         except:
             u10 = np.nan
